@@ -147,6 +147,18 @@ pub fn contexts(l: L, title: &str, n: usize) -> Vec<(Vec<Rec>, usize)> {
         }
         v.push((recs, 25));
     }
+    if n >= 5 {
+        // a big crowd: 119 better-rated records that all share the target's first word, limit exactly |store| = 120
+        let first = title.split(|c: char| c == ' ' || c == '-').next().unwrap_or(title).to_string();
+        let mut recs: Vec<Rec> = Vec::new();
+        for i in 0..119 {
+            if i == 60 {
+                recs.push(rec(TARGET_ID, title, 1));
+            }
+            recs.push(rec(1000 + i, &match i % 3 { 0 => format!("{} {} {}", first, unrelated, i), 1 => format!("{}{}", first, i), _ => format!("{} {}", i, first) }, 100 + i));
+        }
+        v.push((recs, 120));
+    }
     if n >= 3 {
         // two word-less records first (they occupy positions but have no grams), then the target between distractors
         v.push((vec![rec(3, "---", 8), rec(4, "", 6), rec(1, &format!("{} {}", title, unrelated), 9), rec(2, unrelated, 7), rec(TARGET_ID, title, 0)], 5));
